@@ -35,6 +35,9 @@ def hash_groups():
       replace=['__cstl_hash_get_bucket', 'cstl_clean_bucket', '__cstl_hash_rehash'],
       what='keyed access: <= 3 dirty buckets relocated, sweep advances or completes, one hash consultation when idle, bucket in range',
       defines=['-DVF_BYTE_STAMPS'], shards=6, timeout=1500, solver='kissat')
+    G.append(Group('hash.insert', ['C03'], 'P', S, 'h_insert', enforce='cstl_hash_insert', replace=['cstl_hash_get_bucket'],
+                   sources=[('hash.c', {'loops': L, 'normalise': True})], defines=['-DVF_G_insert', '-DVF_BYTE_STAMPS'], timeout=2400, solver='kissat', tier='thorough', weight=2,
+                   what='insert: the element heads the chain of the bucket the effective function selects for its key, key stored, counted; flat and sweep invariants kept (get_bucket replaced by its proved contract)'))
     g('hash.set_capacity', ['C16', 'C03'], 'h_set_capacity', '__cstl_hash_set_capacity',
       what='bucket array reallocation lands completely or changes nothing (allocation may fail)')
     g('hash.set_capacity_init', ['C16'], 'h_set_capacity', '__cstl_hash_set_capacity',
